@@ -25,32 +25,48 @@ theorem Res.bind_eq_ok {ε α β : Type} {x : Res ε α} {f : α → Res ε β} 
 
 /-! ## Outcome of a monadic computation that does not depend on the state -/
 
-def Always {α : Type} (x : M σ α) (r : R α) : Prop := ∀ st, ∃ st', x st = (r, st')
+/-- From every state satisfying `P`, `x` returns `r` and ends in a state satisfying `P`.
+(`P` = `fun _ => True`: the outcome does not depend on the state at all.) -/
+def Always (P : St σ → Prop) {α : Type} (x : M σ α) (r : R α) : Prop :=
+  ∀ st, P st → ∃ st', x st = (r, st') ∧ P st'
 
-theorem Always.bind {α β : Type} {x : M σ α} {f : α → M σ β} {rx : R α} {g : α → R β}
-    (hx : Always x rx) (hf : ∀ a, Always (f a) (g a)) : Always (x >>= f) (rx >>= g) := by
-  intro st
-  obtain ⟨st1, h1⟩ := hx st
-  show ∃ st', M.bind x f st = _
+theorem Always.bind {P : St σ → Prop} {α β : Type} {x : M σ α} {f : α → M σ β} {rx : R α} {g : α → R β}
+    (hx : Always P x rx) (hf : ∀ a, Always P (f a) (g a)) : Always P (x >>= f) (rx >>= g) := by
+  intro st hP
+  obtain ⟨st1, h1, hP1⟩ := hx st hP
+  show ∃ st', M.bind x f st = _ ∧ _
   simp only [M.bind, h1]
   cases rx with
-  | ok a => exact hf a st1
-  | err e => exact ⟨st1, rfl⟩
-  | panic => exact ⟨st1, rfl⟩
+  | ok a => exact hf a st1 hP1
+  | err e => exact ⟨st1, rfl, hP1⟩
+  | panic => exact ⟨st1, rfl, hP1⟩
 
-theorem Always.pure {α : Type} (a : α) : Always (σ := σ) (Pure.pure a) (.ok a) := fun st => ⟨st, rfl⟩
-theorem Always.lift {α : Type} (r : R α) : Always (σ := σ) (M.lift r) r := fun st => ⟨st, rfl⟩
-theorem Always.fail {α : Type} (e : Err) : Always (σ := σ) (M.fail e : M σ α) (.err e) := fun st => ⟨st, rfl⟩
+theorem Always.pure {P : St σ → Prop} {α : Type} (a : α) : Always P (Pure.pure a) (.ok a) :=
+  fun st h => ⟨st, rfl, h⟩
+theorem Always.lift {P : St σ → Prop} {α : Type} (r : R α) : Always P (M.lift r) r :=
+  fun st h => ⟨st, rfl, h⟩
+theorem Always.fail {P : St σ → Prop} {α : Type} (e : Err) : Always P (M.fail e : M σ α) (.err e) :=
+  fun st h => ⟨st, rfl, h⟩
 
 /-- the device answers reads as the pure function `dev`, whatever its state -/
 def Stateless (o : Ops σ) (dev : Nat → Nat → R Bytes) : Prop :=
   ∀ a n s, ∃ s', o.read a n s = (dev a n, s')
 
-theorem Always.devRead {o : Ops σ} {dev : Nat → Nat → R Bytes} (h : Stateless o dev) (a n : Nat) :
-    Always (devRead o a n) (dev a n) := by
-  intro st
+/-- in every handle state satisfying `P` the device answers reads as the pure function `dev`,
+and reading keeps `P` (e.g. `P` = "the device currently shows image `dev`") -/
+def StatelessOn (P : St σ → Prop) (o : Ops σ) (dev : Nat → Nat → R Bytes) : Prop :=
+  ∀ a n st, P st → ∃ s', o.read a n st.dev = (dev a n, s') ∧ P { st with dev := s' }
+
+theorem Stateless.on {o : Ops σ} {dev : Nat → Nat → R Bytes} (h : Stateless o dev) :
+    StatelessOn (fun _ => True) o dev := fun a n st _ => by
   obtain ⟨s', hs⟩ := h a n st.dev
-  exact ⟨{ st with dev := s' }, by simp [CamVerif.GenApiFetch.devRead, hs]⟩
+  exact ⟨s', hs, trivial⟩
+
+theorem Always.devRead {P : St σ → Prop} {o : Ops σ} {dev : Nat → Nat → R Bytes}
+    (h : StatelessOn P o dev) (a n : Nat) : Always P (devRead o a n) (dev a n) := by
+  intro st hP
+  obtain ⟨s', hs, hP'⟩ := h a n st hP
+  exact ⟨{ st with dev := s' }, by simp [CamVerif.GenApiFetch.devRead, hs], hP'⟩
 
 /-! ## The model specialised to a stateless device -/
 
@@ -120,15 +136,15 @@ def fetchFrom (o : Ops σ) (dev : Nat → Nat → R Bytes) (table : Nat) : R Byt
 /-! ## Refinement: the monadic model on a stateless device is the pure function -/
 
 section
-variable {o : Ops σ} {dev : Nat → Nat → R Bytes} (h : Stateless o dev)
+variable {P : St σ → Prop} {o : Ops σ} {dev : Nat → Nat → R Bytes} (h : StatelessOn P o dev)
 include h
 
-theorem Always.readReg (base off len : Nat) : Always (readReg o base off len) (readRegP dev base off len) := by
+theorem Always.readReg (base off len : Nat) : Always P (readReg o base off len) (readRegP dev base off len) := by
   unfold CamVerif.GenApiFetch.readReg readRegP
   exact Always.bind (Always.lift _) fun a => Always.bind (Always.devRead h a len) fun _ => Always.pure _
 
 theorem Always.scanEntry (ent : Nat) (cur : Option Candidate) :
-    Always (scanEntry o ent cur) (scanEntryP dev ent cur) := by
+    Always P (scanEntry o ent cur) (scanEntryP dev ent cur) := by
   unfold CamVerif.GenApiFetch.scanEntry scanEntryP
   refine Always.bind (Always.readReg h _ _ _) fun info => Always.bind (Always.lift _) fun ft => ?_
   by_cases hft : ft = .deviceXml
@@ -138,14 +154,14 @@ theorem Always.scanEntry (ent : Nat) (cur : Option Candidate) :
     exact Always.pure _
 
 theorem Always.scan (first : Nat) (k i : Nat) (cur : Option Candidate) :
-    Always (scan o first k i cur) (scanP dev first k i cur) := by
+    Always P (scan o first k i cur) (scanP dev first k i cur) := by
   induction k generalizing i cur with
   | zero => exact Always.pure _
   | succ k ih =>
     unfold CamVerif.GenApiFetch.scan scanP
     exact Always.bind (Always.scanEntry h _ _) fun _ => ih _ _
 
-theorem Always.entries (table : Nat) : Always (entries o table) (entriesP dev table) := by
+theorem Always.entries (table : Nat) : Always P (entries o table) (entriesP dev table) := by
   unfold CamVerif.GenApiFetch.entries entriesP
   refine Always.bind (Always.readReg h _ _ _) fun n => ?_
   by_cases hc : table + 8 + n * 64 ≤ 2 ^ 64
@@ -153,7 +169,7 @@ theorem Always.entries (table : Nat) : Always (entries o table) (entriesP dev ta
   · simp only [hc, if_false]; exact Always.fail _
 
 theorem Always.readFileLoop (addr size fuel offset : Nat) (buf : Bytes) :
-    Always (readFileLoop o addr size fuel offset buf) (readFileLoopP dev addr size fuel offset buf) := by
+    Always P (readFileLoop o addr size fuel offset buf) (readFileLoopP dev addr size fuel offset buf) := by
   induction fuel generalizing offset buf with
   | zero => exact Always.pure _
   | succ fuel ih =>
@@ -163,10 +179,10 @@ theorem Always.readFileLoop (addr size fuel offset : Nat) (buf : Bytes) :
       exact Always.bind (Always.lift _) fun a => Always.bind (Always.devRead h a _) fun bs => ih _ _
     · simp only [hlt, if_false]; exact Always.pure _
 
-theorem Always.readFile (addr size : Nat) : Always (readFile o addr size) (readFileP dev addr size) :=
+theorem Always.readFile (addr size : Nat) : Always P (readFile o addr size) (readFileP dev addr size) :=
   Always.readFileLoop h addr size _ 0 []
 
-theorem Always.sha1Hash (ent : Nat) : Always (sha1Hash o ent) (sha1HashP dev ent) := by
+theorem Always.sha1Hash (ent : Nat) : Always P (sha1Hash o ent) (sha1HashP dev ent) := by
   unfold CamVerif.GenApiFetch.sha1Hash sha1HashP
   refine Always.bind (Always.lift _) fun a => Always.bind (Always.devRead h a 20) fun hb => ?_
   by_cases hz : hb.all (· == 0) = true
@@ -174,7 +190,7 @@ theorem Always.sha1Hash (ent : Nat) : Always (sha1Hash o ent) (sha1HashP dev ent
   · simp only [hz]; exact Always.pure _
 
 theorem Always.verifyXml (xml : Bytes) (ent : Nat) :
-    Always (verifyXml o xml ent) (verifyXmlP o.sha1 dev xml ent) := by
+    Always P (verifyXml o xml ent) (verifyXmlP o.sha1 dev xml ent) := by
   unfold CamVerif.GenApiFetch.verifyXml verifyXmlP
   refine Always.bind (Always.sha1Hash h ent) fun r => ?_
   cases r with
@@ -184,7 +200,7 @@ theorem Always.verifyXml (xml : Bytes) (ent : Nat) :
     · simp only [hs, if_true]; exact Always.pure _
     · simp only [hs, if_false]; exact Always.fail _
 
-theorem Always.genapiFrom (table : Nat) : Always (genapiFrom o table) (fetchFrom o dev table) := by
+theorem Always.genapiFrom (table : Nat) : Always P (genapiFrom o table) (fetchFrom o dev table) := by
   unfold CamVerif.GenApiFetch.genapiFrom fetchFrom
   refine Always.bind (Always.entries h table) fun nf => ?_
   obtain ⟨n, first⟩ := nf
